@@ -21,6 +21,55 @@ Ltac git_keys w keys tac :=
   | cons ?k ?t => destruct (list_eqb w k); [tac | git_keys w t tac]
   end.
 
+Lemma hexdigit_ascii x : is_ascii_hexdigit x = true -> (128 <=? x) = false.
+Proof.
+  unfold is_ascii_hexdigit. intros H. apply N.leb_gt.
+  repeat (apply orb_true_iff in H; destruct H as [H|H]); apply andb_true_iff in H; destruct H as [_ H]; apply N.leb_le in H; lia.
+Qed.
+
+
+(* on ASCII text every position up to the end is a char boundary: slicing a str is slicing its bytes *)
+Lemma is_char_boundary_hex b : forallb is_ascii_hexdigit b = true ->
+  forall i, (i <=? N.of_nat (length b)) = true -> is_char_boundary b i = true.
+Proof.
+  intros H i Hi. unfold is_char_boundary. destruct (i =? 0); [reflexivity|].
+  destruct (nth_error b (N.to_nat i)) as [x|] eqn:E.
+  - apply nth_error_In in E. rewrite forallb_forall in H. rewrite (hexdigit_ascii x (H x E)). reflexivity.
+  - apply nth_error_None in E. apply N.leb_le in Hi. apply N.eqb_eq. lia.
+Qed.
+
+Lemma str_slice_hex b lo hi : forallb is_ascii_hexdigit b = true -> str_slice b lo hi = slice b lo hi.
+Proof.
+  intros H. unfold str_slice, slice.
+  destruct (lo <=? hi) eqn:E1; [|reflexivity]. destruct (hi <=? N.of_nat (length b)) eqn:E2; cbn [andb].
+  - rewrite !(is_char_boundary_hex b H) by (try assumption; apply N.leb_le; apply N.leb_le in E1, E2; lia). reflexivity.
+  - destruct (is_char_boundary b lo && is_char_boundary b hi); reflexivity.
+Qed.
+
+(* the '#' digits once their number is known: [b] is a list of that many variables.  The hex-digit test of the
+   code (`all`, a loop, ..) is decided digit by digit on both sides; with every digit an ASCII hex digit each
+   slice / split_at of the bytes computes *)
+Ltac hex_side :=
+  cbn [forallb]; repeat match goal with H : is_ascii_hexdigit _ = true |- _ => rewrite H end; reflexivity.
+Ltac hex_cbn :=
+  cbn -[u8_from_str_radix is_ascii_hexdigit str_slice];
+  repeat (progress (repeat match goal with |- context [Pos.to_nat ?p] =>
+                      let v := eval vm_compute in (Pos.to_nat p) in change (Pos.to_nat p) with v end);
+          cbn -[u8_from_str_radix is_ascii_hexdigit str_slice]).
+Ltac hex_each :=
+  hex_cbn;
+  lazymatch goal with
+  | |- context [is_ascii_hexdigit ?x] => let H := fresh "H" in destruct (is_ascii_hexdigit x) eqn:H; hex_each
+  | _ => idtac
+  end.
+Ltac hex_slices :=
+  repeat (hex_cbn;
+          match goal with |- context [str_slice ?bb ?lo ?hi] => rewrite (str_slice_hex bb lo hi) by hex_side end);
+  hex_cbn;
+  repeat match goal with |- context [u8_from_str_radix ?r ?d] => destruct (u8_from_str_radix r d) end;
+  reflexivity.
+Ltac hex_digits := hex_each; first [reflexivity | hex_slices].
+
 Lemma g_git_parse_color_eq : forall w,
   option_map git_color_res (g_git_parse_color w) = parse_color w.
 Proof.
@@ -31,16 +80,14 @@ Proof.
   unfold git_hex_prefix, git_hex_lens, git_hex_radix. cbn [existsb].
   destruct (c =? 35).
   2: { destruct (parse_u8 (str_bytes (c :: hex))); reflexivity. }
-  unfold str_len, str_slice_cp.
+  unfold str_len, str_slice_cp, str_split_at_cp, str_split_at.
   change (fun b : N => is_ascii_hexdigit b) with is_ascii_hexdigit.
   change (3 =? 0) with false. cbv iota.
-  set (l := N.of_nat (length (str_bytes hex))).
-  destruct (l =? 3); destruct (l =? 6); cbn [negb andb orb option_map git_color_res]; try reflexivity.
-  all: destruct (forallb is_ascii_hexdigit (str_bytes hex)); cbn [negb option_map git_color_res]; try reflexivity.
-  all: destruct (str_slice (str_bytes hex) 0 (l / 3)); try reflexivity.
-  all: destruct (str_slice (str_bytes hex) (l / 3) (2 * (l / 3))); try reflexivity.
-  all: destruct (str_slice (str_bytes hex) (2 * (l / 3)) (3 * (l / 3))); try reflexivity.
-  all: destruct (u8_from_str_radix 16 l0); destruct (u8_from_str_radix 16 l1); destruct (u8_from_str_radix 16 l2); reflexivity.
+  generalize (str_bytes hex). clear c hex. intros b.
+  destruct (N.of_nat (length b) =? 3) eqn:E3; [|destruct (N.of_nat (length b) =? 6) eqn:E6].
+  - apply N.eqb_eq in E3. destruct b as [|? [|? [|? [|? ?]]]]; cbn [length] in E3; try lia. clear E3. hex_digits.
+  - apply N.eqb_eq in E6. destruct b as [|? [|? [|? [|? [|? [|? [|? ?]]]]]]]; cbn [length] in E6; try lia. clear E3 E6. hex_digits.
+  - cbn [negb andb orb option_map git_color_res]. reflexivity.
 Qed.
 
 (* what follows the loop: `style |= effects; Ok(style)`, or the error a `return` carried *)
